@@ -43,7 +43,7 @@ GATED = {
     "MC_nilcancel": dict(nc=2, nl=0, wrun=[], wterm=[]),
     "MC_gated_core": dict(nc=2, nl=1, wrun=[], wterm=[]),
     "MC_gated_core3": dict(nc=2, nl=1, wrun=[], wterm=[]),
-    "MC_gated_modes": dict(nc=1, nl=0, wrun=[], wterm=[]),
+    "MC_gated_modes": dict(nc=1, nl=1, wrun=[], wterm=[]),
     "MC_gated_nilfn5": dict(nc=1, nl=1, wrun=[], wterm=[]),
     "MC_gated_wait": dict(nc=1, nl=0, wrun=[1], wterm=[2]),
     "MC_gated_nilfn": dict(nc=1, nl=1, wrun=[], wterm=[]),
